@@ -4,6 +4,7 @@ import math, os, subprocess
 from vlib import common
 from checks import crcommon as cr
 from checks import configlib as cl
+from checks.c09 import violation
 
 LEVEL = "proof"
 PID = "C13"
@@ -87,7 +88,7 @@ def stage_select(ctx, exe, n):
         ctx.count("evaluations")
         ctx.count("selections_compared")
         if u.rc != 0:
-            ctx.violation("C13: soxr_create / soxr_engine did not return normally (exit %s): %s (%s)" % (u.rc, u.err[-400:], " | ".join(u.ops)[:500]),
+            violation(ctx, "select", "C13: soxr_create / soxr_engine did not return normally (exit %s): %s (%s)" % (u.rc, u.err[-400:], " | ".join(u.ops)[:500]),
                           {"stage": "select", "ops": u.ops, "rc": u.rc, "stderr": u.err[-1200:]})
             continue
         d = cl.diff_unit(u)
@@ -102,19 +103,19 @@ def stage_select(ctx, exe, n):
             if want is None:
                 ctx.count("oracle_undecided_garbage_env")
             elif a["engine"] != want:
-                ctx.violation("C13 fails on the real code: soxr_create selected %s, the property demands %s (%s)" % (a["engine"], want, u.model_in[0][:500]),
+                violation(ctx, "select-oracle", "C13 fails on the real code: soxr_create selected %s, the property demands %s (%s)" % (a["engine"], want, u.model_in[0][:500]),
                               {"stage": "select", "ops": u.ops, "real": u.real, "expected": want})
                 continue
             if any(nm != a["engine"] for nm in names):
-                ctx.violation("C13 fails on the real code: soxr_engine() answered %s for a resampler created on %s (%s)" % (names, a["engine"], " | ".join(u.model_in)[:600]),
+                violation(ctx, "select", "C13 fails on the real code: soxr_engine() answered %s for a resampler created on %s (%s)" % (names, a["engine"], " | ".join(u.model_in)[:600]),
                               {"stage": "select", "ops": u.ops, "real": u.real})
                 continue
             if a.get("conv") != ("d" if a["engine"] in ("cr64", "cr64s") else "f"):
-                ctx.violation("C13 fails on the real code: conversion kernels %s installed for engine %s (%s)" % (a.get("conv"), a["engine"], u.model_in[0][:400]),
+                violation(ctx, "select", "C13 fails on the real code: conversion kernels %s installed for engine %s (%s)" % (a.get("conv"), a["engine"], u.model_in[0][:400]),
                               {"stage": "select", "ops": u.ops, "real": u.real})
                 continue
         if d:
-            ctx.violation("correspondence broken (engine selection, Config model vs real soxr_create):\n op   : %s\n real : %s\n model: %s" % (
+            violation(ctx, "select", "correspondence broken (engine selection, Config model vs real soxr_create):\n op   : %s\n real : %s\n model: %s" % (
                 d[1][:500], d[2][:300], d[3][:300]), {"stage": "select", "ops": u.ops, "real": u.real, "model": u.model}, no_input=True)
         else:
             ctx.sample({"create": u.model_in[0][:260], "real": r0[:90]})
@@ -226,7 +227,7 @@ def stage_falsifier(ctx, n):
             if out.startswith("J err"):
                 ctx.count("jobs_rejected")
                 continue
-            ctx.violation("C13: the engine-pair job did not run (exit %s): %s %s" % (rc, out[-200:], err[-400:]), rep)
+            violation(ctx, "falsifier", "C13: the engine-pair job did not run (exit %s): %s %s" % (rc, out[-200:], err[-400:]), rep)
             continue
         bad, how = judge(job, out, bits, rolloff)
         ctx.hist("falsifier_jobs", how)
@@ -245,7 +246,7 @@ def stage_falsifier(ctx, n):
         if bad:
             rep["result"] = out
             rep["oracle"] = bad
-            ctx.violation("C13 fails on the real code: %s (%s)" % (bad[0][1], " ".join("%s=%s" % kv for kv in job.items())), rep)
+            violation(ctx, "falsifier", "C13 fails on the real code: %s (%s)" % (bad[0][1], " ".join("%s=%s" % kv for kv in job.items())), rep)
         else:
             ctx.sample({"job": {k2: v for k2, v in job.items() if k2 in ("ir", "or", "recipe", "qflags", "otype", "var")}, "result": out[:200]})
     ctx.cov["distinct_nontrivial"] = ctx.cov.get("distinct_nontrivial", 0) + len(shapes)
